@@ -11,14 +11,19 @@
     exactly the bits at the row-major index of each cell -- (rank of its satellite among the listed
     satellites) x (number of signals) + (rank of its signal among the used signals), counted from the most
     significant bit -- with no two cells at one index.  The masks of all 49 MSM layouts start at payload
-    bits 73 / 137 / 169.  Not proved: that the data rows follow in ascending order (the sort), order
-    independence of the row contents and the decode round trip; these are covered by the ROUNDTRIP
+    bits 73 / 137 / 169.  The rows the encoder writes ([C10_rows], Proofs/MsmRows.v, Proofs/SortProofs.v) are
+    a permutation of the caller's rows sorted by ascending satellite and, for signal rows, by ascending
+    (satellite, signal identifier); every arrangement of the same rows gives the same sorted list, so the
+    encoding does not depend on the caller's order.  Not proved: the decode round trip of the data segment
+    (that the decoder rebuilds the same sets and rows from the masks); covered by the ROUNDTRIP
     correspondence (model = implementation on every generated message) and by the probe that recomputes
     masks and rows independently. *)
 From Coq Require Import ZArith List Lia Bool.
 From RtcmModel Require Import Types BitIO SigId Msm Layout Top.
 From RtcmGen Require Import GenSignals GenLayouts.
-From RtcmProofs Require Import ListZ MsmProofs MsmMasks.
+From Coq Require Import Sorting.Permutation Sorting.Sorted.
+From RtcmModel Require Import Bias.
+From RtcmProofs Require Import ListZ MsmProofs MsmMasks SortProofs MsmRows.
 Import ListNotations.
 Open Scope Z_scope.
 
@@ -65,6 +70,22 @@ Check C10_masks : forall g a b st sats sigs st', t_encode_frag (FMsm g a b) st (
      (forall c, In c cells -> 0 <= cell_index sat_mask sig_mask c <= ccl - 1) /\
      NoDup (map (cell_index sat_mask sig_mask) cells)).
 
+(** the rows the row encoders receive: [enc_sat_rows] encodes [sort_by sat_cmp sats] and [enc_sig_rows] encodes
+    [sort_by (sig_row_cmp tbl) sigs], column by column (Model/Msm.v); both are sorted permutations that do not
+    depend on the caller's order *)
+Theorem C10_rows : forall g a b st sats sigs st', t_encode_frag (FMsm g a b) st (VStruct [VList sats; VList sigs]) = Ok st' ->
+  ~ (sats = [] /\ sigs = []) ->
+  rows_sorted sat_key sat_cmp sats /\ rows_sorted (sig_key (sig_table g)) (sig_row_cmp (sig_table g)) sigs.
+Proof. intros g a b st sats sigs st' H. cbn [t_encode_frag encode_frag] in H. eapply msm_rows_sorted. exact H. Qed.
+Check C10_rows : forall g a b st sats sigs st', t_encode_frag (FMsm g a b) st (VStruct [VList sats; VList sigs]) = Ok st' ->
+  ~ (sats = [] /\ sigs = []) ->
+  (Permutation (sort_by sat_cmp sats) sats /\
+   StronglySorted (fun x y => lexle (sat_key x) (sat_key y)) (sort_by sat_cmp sats) /\
+   forall sats', Permutation sats sats' -> sort_by sat_cmp sats' = sort_by sat_cmp sats) /\
+  (Permutation (sort_by (sig_row_cmp (sig_table g)) sigs) sigs /\
+   StronglySorted (fun x y => lexle (sig_key (sig_table g) x) (sig_key (sig_table g) y)) (sort_by (sig_row_cmp (sig_table g)) sigs) /\
+   forall sigs', Permutation sigs sigs' -> sort_by (sig_row_cmp (sig_table g)) sigs' = sort_by (sig_row_cmp (sig_table g)) sigs).
+
 (** non-vacuity: GPS satellites {5, 3} with signals 1C on 5 and 2W, 1C on 3, listed out of order:
     satellite mask 00101000.., signal mask bits 2 (1C) and 10 (2W), cell mask 11|10 (satellite 3: both, satellite 5: 1C) *)
 Example C10_masks_example :
@@ -105,3 +126,4 @@ Print Assumptions C10_rejects.
 Print Assumptions C10_sat_mask_bits.
 Print Assumptions C10_mask_offsets.
 Print Assumptions C10_masks.
+Print Assumptions C10_rows.
